@@ -9,6 +9,7 @@ import (
 	"sort"
 	"strconv"
 	"strings"
+	"sync"
 	"syscall"
 
 	"verif/engine/vsched"
@@ -24,23 +25,24 @@ import (
 
 // SeqState is the per-watcher oracle state of a sequential execution.
 type SeqState struct {
-	X         *X
-	W         *fsnotify.Watcher
-	WI        int
-	Fd        int
-	M         *Ideal
-	readSeen  int   // number of vs.Reads already parsed
-	readPos   int64 // bytes consumed from this watcher's stream
-	logSeen   int   // x.Log index up to which events/errors were compared
-	expErrs   int
-	Problems  []Problem
-	Skip      map[string]bool // problem categories not judged by this scenario
-	calls     int
-	inj       bool
-	consuming bool
-	closing   bool
-	Closed    bool
-	Cap       int
+	X                *X
+	W                *fsnotify.Watcher
+	WI               int
+	Fd               int
+	M                *Ideal
+	readSeen         int   // number of vs.Reads already parsed
+	readPos          int64 // bytes consumed from this watcher's stream
+	logSeen          int   // x.Log index up to which events/errors were compared
+	expErrs          int
+	Problems         []Problem
+	Skip             map[string]bool // problem categories not judged by this scenario
+	calls            int
+	inj              bool
+	consuming        bool
+	TablesUnreadable bool // the hook could not read the library's tables (the table comparison of C12 was skipped)
+	closing          bool
+	Closed           bool
+	Cap              int
 }
 
 func (s *SeqState) vs() *vsys.State { return vsys.Get() }
@@ -73,7 +75,12 @@ func (s *SeqState) problem(cat, sig, detail string) {
 func NewSeqState(x *X, capa int, inject, lateConsumer bool) *SeqState {
 	w, err := x.NewWatcher(capa)
 	mustNil(err)
-	s := &SeqState{X: x, W: w, WI: x.widx(w), Fd: fsnotify.VerifFd(w), M: NewIdeal(), Skip: map[string]bool{}, inj: inject, Cap: capa}
+	// the descriptor number comes from the syscall seam (the last inotify_init1), not from the library
+	fd := fsnotify.VerifFd(w)
+	if fds := vsys.Get().Fds; len(fds) > 0 {
+		fd = fds[len(fds)-1]
+	}
+	s := &SeqState{X: x, W: w, WI: x.widx(w), Fd: fd, M: NewIdeal(), Skip: map[string]bool{}, inj: inject, Cap: capa}
 	if inject {
 		x.SubstitutePipe(w)
 	}
@@ -155,6 +162,10 @@ func (s *SeqState) Remove(p string) error {
 // snapshot renders the library's tables (no lock: only one thread runs).
 func (s *SeqState) snapshot() string {
 	t := fsnotify.VerifTables(s.W, false)
+	if t.Unavailable {
+		// the tables cannot be read (restructured): fall back to the kernel's view
+		return fmt.Sprintf("marks %+v", readMarks(s.Fd))
+	}
 	var wds []int
 	for k := range t.Wd {
 		wds = append(wds, int(k))
@@ -175,6 +186,8 @@ func (s *SeqState) snapshot() string {
 	}
 	return b.String()
 }
+
+var warnOnce sync.Once
 
 type kmark struct {
 	wd   int
@@ -291,10 +304,19 @@ func (s *SeqState) Checkpoint() {
 	// 5. tables and kernel marks
 	t := fsnotify.VerifTables(s.W, false)
 	var bad []string
-	if len(t.Wd) != len(s.M.byWd) || len(t.Path) != len(s.M.bySpelling) {
+	if t.Unavailable {
+		t.Wd, t.Path = nil, nil
+		s.TablesUnreadable = true
+		warnOnce.Do(func() {
+			fmt.Fprintln(os.Stderr, "WARNING: the verif hook cannot read the library's tables any more (restructured?): the table comparison (part of C12) is skipped; kernel marks, WatchList and events are still compared")
+		})
+	} else if len(t.Wd) != len(s.M.byWd) || len(t.Path) != len(s.M.bySpelling) {
 		bad = append(bad, fmt.Sprintf("table sizes wd=%d path=%d, live watches %d", len(t.Wd), len(t.Path), len(s.M.byWd)))
 	}
 	for wd, e := range s.M.byWd {
+		if t.Unavailable {
+			break
+		}
 		tw, ok := t.Wd[uint32(wd)]
 		if !ok || tw.Path != e.Spelling || int(tw.Wd) != wd {
 			bad = append(bad, fmt.Sprintf("wd table lacks/garbles wd %d (%q): %+v", wd, e.Spelling, tw))
